@@ -4,12 +4,34 @@ import json, subprocess
 from plans import PLANS, LEVEL
 
 HOOK_COMMITS = ["6653079"]
+FIX_COMMITS = ["3f74f98"]
 
 TEXT = {
     "C01": ("exploration", "DESIGN.md §3 C01",
             "Offline oracle over client-boundary histories and handler events of real hannibal code run under thousands of seeded interleavings per second: handler brackets never overlap, each message uid is handled at most once, every completed-before pair is handled in order through all 4 path combinations and all handle-kind pairs, and every reply/join value equals the fold of the handled prefix. Exploration is the right level: the property quantifies over programs x schedules, which a monitor can only sample.",
             "history oracle (real-time order => handling order, at-most-once, fold) on a seeded controlled executor"),
 }
+
+TEXT.update({
+    "C02": ("exploration", "DESIGN.md §3 C02",
+            "Replies carry the message uid and the handler-side state stamp, so the oracle can tell swapped, duplicated or invented responses from the real one; hangs are decided exactly: when the controlled executor is quiescent no client operation on a terminated actor may be pending, and every operation begun after the actor task ended must return an error.",
+            "reply/handler matching + quiescence-based hang detection on a controlled executor"),
+    "C03": ("exploration", "DESIGN.md §3 C03",
+            "Callback and handler events of every actor incarnation are matched against the protocol started (handle|item)* [finished] stopped, with restart and started-error variants, over programs that terminate actors by every entry point with messages and ticks still queued.",
+            "per-incarnation trace-specification monitor over callback events"),
+    "C04": ("exploration", "DESIGN.md §3 C04",
+            "Logical-clock stamps taken before each client call and after its return decide 'completed before the stop request was issued' and 'begun after an accepted stop returned'; the oracle then demands handled / never handled, and that await, halt, join and consume return only after the stopped() exit event, with Ok iff graceful.",
+            "happens-before oracle over client-boundary stamps vs. handler and stopped() events"),
+    "C05": ("exploration", "DESIGN.md §3 C05",
+            "The interpreter keeps a reference model of the strong handles it holds; the oracle checks that no actor terminates while the model is positive, that when it reaches zero everything accepted is handled and stopped() starts at exactly the virtual instant of max(last drop, last handler exit), that at no quiescent point an actor without strong handles is idle and alive, and that upgrades fail from then on.",
+            "reference-model monitor (strong-handle count vs. observed liveness) with quiescent-point invariant"),
+    "C12": ("exploration", "DESIGN.md §3 C12",
+            "Walks the event sequence keeping the set of sends that returned Ok minus the messages already dequeued and asserts it never exceeds the bound; counts Pending polls of send futures on unbounded mailboxes; every send must have resolved at quiescence.",
+            "conservation monitor (returned - dequeued <= n) over send-return and handler-entry events"),
+    "C17": ("exploration", "DESIGN.md §3 C17",
+            "Join/consume results are compared with the fold of the handler log of the final object; stamps decide that a Some is only returned after stopped() exited, at most once per actor, and that every join resolves once the actor task has ended.",
+            "history oracle over join results vs. handler log"),
+})
 
 NOT_YET = "check not built yet in this revision (planned, see DESIGN.md §3)"
 
